@@ -115,6 +115,9 @@ for c in (3, 4):
                                functions=FILTF, inst='u64', needs_parts=['merge_ska_array/common'], caps={'RCAP': 1, 'CCAP': c, 'SCAP': c, 'MCAP': 1}, models=['ndarray', 'hashbrown'],
                                sym='one row of %d symbols over the 16 stored symbols, min_count 0..=%d' % (c, c + 1), oracle='row kept iff count >= max(1,min_count) and site predicate (from the property text); kept row shows stored bases, ambiguity codes as N under mask',
                                bounds='1 row x %d samples; flags concrete: filter=%s ambig-as-missing=%d mask=%d no-gap-only=%d update-kmers=%d' % (c, FTN[ft], am, mk, ng, uk), timeout=1500, mem_gb=10)
+                        if (c, ft, am, mk, ng, uk) == (3, 1, 0, 0, 0, 0):
+                            d['props'] = ['C06', 'C03']
+                            d['tier'] = 'quick'
                         if ft == 0:
                             d['dead_witnesses'] = ['a row is dropped by the site filter']
                         if c == 3:
@@ -184,7 +187,7 @@ for (nm, fn, f) in [('extend.k', 'extend_refuses_k', 'extend'), ('extend.strand'
 CAP23 = {'RCAP': 2, 'CCAP': 3, 'SCAP': 3, 'MCAP': 2}
 CAP33 = {'RCAP': 3, 'CCAP': 3, 'SCAP': 3, 'MCAP': 2}
 for (m, r) in [(1, 0), (2, 0), (4, 0), (3, 0), (5, 0), (6, 0), (3, 1), (5, 1), (6, 1)]:
-    ob('C08.del.m%d%s' % (m, '.rev' if r else ''), ['C08', 'C10'], 'merge_ska_array/delete', 'delete_m%d_%s' % (m, 'rev' if r else 'fwd'), tier='quick' if (m, r) in ((2, 0), (5, 1)) else 'thorough',
+    ob('C08.del.m%d%s' % (m, '.rev' if r else ''), ['C08', 'C10'], 'merge_ska_array/delete', 'delete_m%d_%s' % (m, 'rev' if r else 'fwd'), tier='quick' if (m, r) in ((1, 0), (2, 0), (6, 1)) else 'thorough',
        functions=[MA + 'delete_samples', MA + 'update_counts'], inst='u64', needs_parts=['merge_ska_array/common'], caps=CAP23, models=['ndarray', 'hashbrown'],
        sym='2 x 3 table over the 16 stored symbols; subset of {a,b,c} to delete concrete (mask %d), names passed %s' % (m, 'in reverse order' if r else 'in file order'),
        oracle='remaining columns in order with all their bases; rows that become empty removed; counts recomputed; k-mers aligned', bounds='3 samples, 2 k-mers', timeout=2400, mem_gb=12)
@@ -225,7 +228,7 @@ for nm in ('forward', 'reverse', 'forward_twice', 'reverse_twice'):
 
 # ------------------------------------------------------------------ generic_modes wrappers
 GM = 'src/generic_modes.rs::'
-ob('C06.thr', ['C06'], 'generic_modes/wrap', 'apply_filters_threshold_c4', functions=[GM + 'apply_filters', MA + 'filter'], inst='u64', needs_parts=['merge_ska_array/common'], caps={'RCAP': 1, 'CCAP': 4, 'SCAP': 1, 'MCAP': 1}, models=['ndarray'],
+ob('C06.thr', ['C06', 'C14', 'C03'], 'generic_modes/wrap', 'apply_filters_threshold_c4', functions=[GM + 'apply_filters', MA + 'filter'], inst='u64', needs_parts=['merge_ska_array/common'], caps={'RCAP': 1, 'CCAP': 4, 'SCAP': 1, 'MCAP': 1}, models=['ndarray'],
    sym='min_freq: any f64 in [0,1]; one row of 4 symbols over {A,C,G,T,-}', oracle='row emitted iff present in >= ceil(4 x min_freq) samples (IEEE double arithmetic, the CLI\'s own)', bounds='4 samples', timeout=1800, mem_gb=12)
 def dw_dead(c, pm, f2):
     npres = bin(pm).count('1')
@@ -306,3 +309,19 @@ for (p0, p1) in [(0, 0), (0, 1), (0, 2), (0, 3), (1, 1), (1, 2), (1, 3), (2, 2),
        needs_parts=['merge_ska_dict/common', 'ska_dict/acc'], caps={'MCAP': 2, 'SCAP': 1, 'RCAP': 1, 'CCAP': 1}, models=['hashbrown'],
        sym='two partial tables of one 3-sample build (sample 0 | samples 1,2) over a 2-key universe; bases symbolic; presence pattern concrete (key0=%d, key1=%d; 1=self 2=other 3=both)' % (p0, p1),
        oracle='every sample keeps its own base for every key of the union; names of both tables survive; no other entry', bounds='3 samples, 2 keys', timeout=1500, mem_gb=12)
+
+# ------------------------------------------------------------------ C16 / C12: sliding read hash across an N
+for k, tier in ((5, 'quick'), (7, 'thorough')):
+    ob('C16.hash.win.k%d' % k, ['C16', 'C12'], 'split_kmer/hash', 'hash_across_n_k%d' % k, tier=tier, functions=WINF + [SK + 'get_hash'] + NTF, inst='u64', needs_parts=['split_kmer/common'],
+       sym='read = k bases, N, k+1 bases (bases and case symbolic, N position concrete), strand mode', oracle='at each of the three windows: sliding hash = NtHashIterator::new(window); position; content',
+       bounds='k=%d' % k, timeout=2400, mem_gb=24, mem_expect_gb=10)
+
+for (nm, fn, tier) in [('first', 'c10_delete_first', 'thorough'), ('middle', 'c10_delete_middle', 'quick'), ('last', 'c10_delete_last', 'thorough')]:
+    ob('C10.A.delete.' + nm, ['C10', 'C08'], 'merge_ska_array/c10', fn, tier=tier, functions=[MA + 'delete_samples', MA + 'update_counts'], inst='u64', needs_parts=['merge_ska_array/common'],
+       caps={'RCAP': 1, 'CCAP': 3, 'SCAP': 3, 'MCAP': 1}, models=['ndarray', 'hashbrown'], sym='one row x 3 samples over the 16 stored symbols; arbitrary positive stored count; the %s sample deleted' % nm,
+       oracle='row kept iff a remaining sample has a base, with the recomputed count, whatever count was stored', bounds='1 k-mer, 3 samples', timeout=2400, mem_gb=12)
+
+ob('C11.tree.offset', ['C11'], 'merge_ska_dict/tree', 'parallel_append_depth2_offset2', functions=['src/merge_ska_dict.rs::parallel_append', 'src/merge_ska_dict.rs::multi_append', MD + 'merge', MD + 'append'], inst='u64',
+   needs_parts=['merge_ska_dict/common', 'ska_dict/acc'], caps={'MCAP': 2, 'SCAP': 1, 'RCAP': 1, 'CCAP': 1}, models=['hashbrown', 'rayon (sequential join)'], stubs=['SkaDict::new -> dictionary provider (environment stub)'],
+   sym='4 samples that are samples 2..6 of a 6-sample build, one k-mer of a 2-key universe and a symbolic base each; strand mode; recursion depth 2 with offset 2',
+   oracle='every sample lands in its own column and name slot (the situation of merge depth >= 3, i.e. >= 70 files with >= 8 threads, reproduced at small size)', bounds='4 of 6 samples, depth 2, offset 2', timeout=3600, mem_gb=32, mem_expect_gb=12)
